@@ -3,6 +3,10 @@
 // cache_interface + triggers_recorder over a cppcms::service.  Simulated: clock.
 #include <cppcms/service.h>
 #include <cppcms/cache_interface.h>
+#include <cppcms/application.h>
+#include <cppcms/http_context.h>
+#include <cppcms/http_response.h>
+#include "dummy_api.h"   // the repository's own unit-test connection (tests/dummy_api.h): a context without sockets
 #include <cppcms/cache_pool.h>
 #include <cppcms/json.h>
 #include "cache_storage.h"
@@ -45,6 +49,17 @@ J enum_op(int code){
 	return o;
 }
 
+// an application whose context sits on the repository's dummy connection: cache().fetch_page()/store_page() and the request-wide
+// trigger set (everything added or inherited while the page was built) need a context
+struct PageApp : cppcms::application {
+	std::string out; cppcms::service &s;
+	PageApp(cppcms::service &srv) : cppcms::application(srv), s(srv) {}
+	~PageApp(){ release_context(); }
+	void new_request(){ std::map<std::string,std::string> env; env["HTTP_HOST"] = "sim.example"; env["SCRIPT_NAME"] = "/p"; env["PATH_INFO"] = "/"; env["REQUEST_METHOD"] = "GET";
+		booster::shared_ptr<dummy_api> api(new dummy_api(s,env,out)); booster::shared_ptr<cppcms::http::context> cnt(new cppcms::http::context(api)); assign_context(cnt); response().io_mode(cppcms::http::response::normal); out.clear(); }
+	std::string body(){ response().finalize(); size_t from = out.find("\r\n\r\n"); std::string r = from == std::string::npos ? out : out.substr(from+4); out.clear(); return r; }
+};
+
 struct E2 : Engine {
 	long enum_total(const std::string &prop,bool thorough,int &len){ len = thorough ? 5 : 3; long n = 1; for(int i=0;i<len;i++) n *= 16; return prop == "C08" ? n*2 : n; }
 
@@ -58,13 +73,13 @@ struct E2 : Engine {
 			if(prop == "C08"){ lim = 1 + (code & 1); code >>= 1; }
 			p["mode"] = "enum"; p["backend"] = "thread"; p["iface"] = 0; p["limit"] = lim; p["fault_seed"] = 1;
 			J ops = J::arr(); for(int i=0;i<elen;i++){ ops.push(enum_op(code & 15)); code >>= 4; }
-			p["ops"] = ops; return p;
+		p["ops"] = ops; return p;
 		}
 		p["mode"] = "random";
 		bool c08 = prop == "C08";
 		bool process = r.below(100) < (c08 ? 25 : 12);
 		bool iface = !process && !c08 && r.below(100) < 35;
-		p["backend"] = process ? "process" : "thread"; p["iface"] = iface ? 1 : 0;
+		p["backend"] = process ? "process" : "thread"; p["iface"] = iface ? 1 : 0; bool ctx = iface && r.below(2); p["ctx"] = ctx ? 1 : 0;   // ctx: cache_interface of a request context, with whole pages (fetch_page / store_page)
 		int nkeys = 2 + r.below(5); if(r.below(8) == 0) nkeys = 12 + r.below(20);
 		int ntrig = r.below(6);
 		int limit;
@@ -78,12 +93,16 @@ struct E2 : Engine {
 		if(process && r.below(3) == 0) nops = thorough ? 2000 + r.below(8000) : 300 + r.below(900);   // long fill/clear cycles
 		bool bigvals = process && r.below(2) && nops <= 1200;   // long fill/clear cycles use moderate values (cost), short runs the huge ones
 		{ J kp = J::arr(); for(int i=0;i<nkeys && i<64;i++){ unsigned x = r.below(10); int pad = 0; if(x == 0) pad = 16 + r.below(40); else if(process && x == 1) pad = mem_kb*1024/8 + r.below(mem_kb*1024/6); else if(process && x == 2) pad = 1000 + r.below(30000); kp.push(pad); } p["key_pad"] = kp; }
-		J ops = J::arr();
+		J ops = J::arr(); bool gen_page_open = false;
 		auto pick_trigs = [&](J &o){ J tr = J::arr(); int n = ntrig ? r.below(3) : 0; for(int i=0;i<n;i++) tr.push((int)r.below(ntrig)); if(r.below(6) == 0) tr.push(100 + (int)r.below(nkeys)); if(r.below(50)==0) for(int i=0;i<30;i++) tr.push(200+i); o["trig"] = tr; };
 		auto pick_dl = [&]()->int { unsigned x = r.below(10); return x < 5 ? 1 + (int)r.below(8) : x < 8 ? 50 + (int)r.below(1000) : x == 8 ? -(int)r.below(3) : 0; };
 		auto pick_vlen = [&]()->int { if(bigvals){ unsigned x = r.below(20); if(x == 0) return mem_kb*1024/2 + r.below(mem_kb*1024); if(x < 4) return mem_kb*1024/40 + r.below(mem_kb*1024/8); if(x < 10) return 1000 + r.below(20000); } unsigned x = r.below(10); return x == 0 ? 0 : x < 8 ? 4 + r.below(40) : 200 + r.below(5000); };
 		for(int i=0;i<nops;i++){
 			J o = J::obj(); unsigned x = r.below(100);
+			if(ctx && (gen_page_open ? r.below(100) < 30 : r.below(100) < 12)){   // whole pages: ask for one; once a request has missed its page it builds and stores it a few operations later
+				if(gen_page_open){ o["op"] = "pstore"; int d = pick_dl(); o["dl"] = r.below(3)==0 ? -1 : (d < 0 ? 0 : d); o["vlen"] = 1 + (int)r.below(300); gen_page_open = false; }
+				else { o["op"] = "pfetch"; o["k"] = (int)r.below(std::min(nkeys,2)); gen_page_open = true; }
+				ops.push(o); continue; }
 			if(iface){
 				if(x < 22){ o["op"] = "fstore"; o["k"] = (int)r.below(nkeys); pick_trigs(o); int d = pick_dl(); o["dl"] = r.below(5)==0 ? -1 : (d < 0 ? 0 : d); o["vlen"] = pick_vlen(); o["nt"] = r.below(5) == 0; }
 				else if(x < 48){ o["op"] = "ffetch"; o["k"] = (int)r.below(nkeys); o["nt"] = r.below(6) == 0; }
@@ -92,7 +111,9 @@ struct E2 : Engine {
 				else if(x < 67){ o["op"] = "rec_drop"; }
 				else if(x < 72){ o["op"] = "addtrig"; o["t"] = ntrig ? (int)r.below(ntrig) : 100; }
 				else if(x < 75){ o["op"] = "reset"; }
-				else if(x < 80){ o["op"] = "new_req"; }
+				else if(x < 77){ o["op"] = "new_req"; }
+				else if(x < 80 && !ctx){ o["op"] = "new_req"; }
+				else if(x < 80){ if(r.below(2)){ o["op"] = "pfetch"; o["k"] = (int)r.below(nkeys); } else { o["op"] = "pstore"; int d = pick_dl(); o["dl"] = r.below(5)==0 ? -1 : (d < 0 ? 0 : d); o["vlen"] = 1 + (int)r.below(300); } }
 				else if(x < 87){ o["op"] = "rise"; o["t"] = r.below(3) == 0 ? 100 + (int)r.below(nkeys) : (ntrig ? (int)r.below(ntrig) : 100); }
 				else if(x < 94){ o["op"] = "tick"; o["s"] = 1 + (int)r.below(6); }
 				else if(x < 95){ o["op"] = "clear"; }
@@ -110,6 +131,8 @@ struct E2 : Engine {
 			}
 			ops.push(o);
 		}
+		// one store in six repeats the exact bytes of an earlier store of the plan (usually with other triggers and another deadline)
+		{ std::vector<size_t> st; for(size_t i=0;i<ops.a.size();i++){ std::string k = ops.a[i].gets("op"); if(k != "store" && k != "fstore" && k != "rec_store") continue; if(!st.empty() && r.below(6) == 0){ size_t j = st[r.below(st.size())]; ops.a[i]["vseed"] = ops.a[j].has("vseed") ? ops.a[j].geti("vseed") : (int64_t)j; ops.a[i]["vlen"] = ops.a[j].geti("vlen"); if(r.below(2)) ops.a[i]["k"] = ops.a[j].geti("k"); } st.push_back(i); } }
 		p["ops"] = ops;
 		return p;
 	}
@@ -243,13 +266,13 @@ struct E2 : Engine {
 		const J &ops = plan.get("ops");
 		int maxk = 0;
 		{
-			std::unique_ptr<cppcms::service> srv; std::unique_ptr<cppcms::cache_interface> ci;
+			std::unique_ptr<cppcms::service> srv; std::unique_ptr<cppcms::cache_interface> ci_own; cppcms::cache_interface *ci = nullptr; std::unique_ptr<PageApp> app; bool ctx = plan.geti("ctx"); bool page_open = false; std::string page_key;
 			std::vector<std::unique_ptr<cppcms::triggers_recorder>> recs; std::vector<std::set<std::string>> mrecs; std::set<std::string> mtrig;
 			if(iface){
 				cppcms::json::value v; v["cache"]["backend"] = "thread_shared"; v["cache"]["limit"] = (int)limit;
 				v["service"]["api"] = "http"; v["service"]["port"] = 8080; v["service"]["disable_global_exit_handling"] = true; v["service"]["worker_threads"] = 1;
 				v["localization"]["locales"][0] = "C"; v["localization"]["backend"] = "std"; v["logging"]["stderr"] = false;
-				srv.reset(new cppcms::service(v)); c.cache = srv->cache_pool().get(); ci.reset(new cppcms::cache_interface(*srv));
+				srv.reset(new cppcms::service(v)); c.cache = srv->cache_pool().get(); if(ctx){ app.reset(new PageApp(*srv)); app->new_request(); ci = &app->cache(); } else { ci_own.reset(new cppcms::cache_interface(*srv)); ci = ci_own.get(); }
 			}
 			else if(c.process){ size_t mem = (size_t)std::max<int64_t>(512,plan.geti("mem_kb",512)) * 1024; c.cache = cppcms::impl::process_cache_factory(mem,limit); do_clear(c); }
 			else c.cache = cppcms::impl::thread_cache_factory(limit);
@@ -259,8 +282,8 @@ struct E2 : Engine {
 				int k = (int)(((o.geti("k") % 1000) + 1000) % 1000); if(k > maxk) maxk = k; std::string key = key_name(k);
 				auto trigs = [&]{ std::set<std::string> tr; const J &ta = o.get("trig"); for(size_t j=0;j<ta.size();j++) tr.insert(trig_name((int)(((ta.a[j].as_int() % 1000)+1000)%1000))); return tr; };
 				std::string tname = trig_name((int)(((o.geti("t") % 1000)+1000)%1000));
-				int vlen = (int)std::min<int64_t>(o.geti("vlen"),64*1024*1024);
-				if(op == "store") do_store(c,key,make_val((int)i,vlen),trigs(),c.now() + o.geti("dl"));
+				int vlen = (int)std::min<int64_t>(o.geti("vlen"),64*1024*1024); int vseed = o.has("vseed") ? (int)o.geti("vseed") : (int)i;   // vseed: the very bytes of an earlier store, again (under other triggers / another deadline)
+				if(op == "store") do_store(c,key,make_val(vseed,vlen),trigs(),c.now() + o.geti("dl"));
 				else if(op == "fetch") do_fetch(c,key,(int)o.geti("how"));
 				else if(op == "rise") do_rise(c,tname);
 				else if(op == "remove"){ if(c.M().m.count(key)) { c.cnt["remove_hit"]++; c.invalidated = true; } c.cache->remove(key); for(auto &m:c.cands) m.remove(key); }
@@ -274,7 +297,7 @@ struct E2 : Engine {
 				else if(iface){
 					int dl = (int)o.geti("dl"); bool nt = o.geti("nt");
 					int64_t deadline = dl < 0 ? (int64_t)(0x7FFFFFFFFFFFFFFFULL - 3600*24) : c.now() + dl;
-					if(op == "fstore"){ std::set<std::string> tr = trigs(); std::string val = make_val((int)i,vlen); ci->store_frame(key,val,tr,dl,nt); if(!nt){ for(auto &t:tr) madd(t); madd(key); } c.M().store(key,fpv(val),tr,deadline,c.now()); c.cnt["fstore"]++; }
+					if(op == "fstore"){ std::set<std::string> tr = trigs(); std::string val = make_val(vseed,vlen); ci->store_frame(key,val,tr,dl,nt); if(!nt){ for(auto &t:tr) madd(t); madd(key); } c.M().store(key,fpv(val),tr,deadline,c.now()); c.cnt["fstore"]++; }
 					else if(op == "ffetch"){
 						std::string got; bool hit = ci->fetch_frame(key,got,nt); const CacheEntry *e = nullptr; bool mhit = c.M().fetch(key,c.now(),&e);
 						if(hit != mhit) c.fail(hit ? "stale-hit" : "lost-entry","fetch_frame(" + key + ") " + (hit ? "hit " + showv(got) : "missed") + ", model " + (mhit ? "hit" : "miss"));
@@ -285,14 +308,25 @@ struct E2 : Engine {
 						if(!recs.empty()){
 							std::set<std::string> tr = recs.back()->detach(); std::set<std::string> mtr = mrecs.back(); recs.pop_back(); mrecs.pop_back();
 							if(tr != mtr) c.fail("recorder-mismatch","detached recorder holds " + show(tr) + " expected " + show(mtr));
-							std::string val = make_val((int)i,vlen); ci->store_frame(key,val,tr,dl,nt); if(!nt){ for(auto &t:tr) madd(t); madd(key); }
+							std::string val = make_val(vseed,vlen); ci->store_frame(key,val,tr,dl,nt); if(!nt){ for(auto &t:tr) madd(t); madd(key); }
 							c.M().store(key,fpv(val),mtr,deadline,c.now()); c.cnt["rec_store"]++; if(mtr.size() >= 2) c.cnt["rec_store_inherited"]++;
 						}
 					}
 					else if(op == "rec_drop"){ if(!recs.empty()){ size_t j = (size_t)(o.geti("j") % recs.size()); recs.erase(recs.begin()+j); mrecs.erase(mrecs.begin()+j); } }
 					else if(op == "addtrig"){ ci->add_trigger(tname); madd(tname); }
 					else if(op == "reset"){ ci->reset(); mtrig.clear(); }
-					else if(op == "new_req"){ recs.clear(); mrecs.clear(); mtrig.clear(); ci.reset(new cppcms::cache_interface(*srv)); }
+					else if(op == "new_req" || ((op == "pfetch" || op == "pstore") && !ctx)){ recs.clear(); mrecs.clear(); mtrig.clear(); page_open = false; if(ctx){ app->new_request(); ci = &app->cache(); } else { ci_own.reset(new cppcms::cache_interface(*srv)); ci = ci_own.get(); } }
+					else if(op == "pfetch"){   // a new request asks for a whole page
+						recs.clear(); mrecs.clear(); mtrig.clear(); app->new_request(); ci = &app->cache(); std::string pk = "_U:" + key;
+						bool hit = ci->fetch_page(key); const CacheEntry *e = nullptr; bool mhit = c.M().fetch(pk,c.now(),&e); c.cnt["pfetch"]++;
+						if(hit != mhit) c.fail(hit ? "stale-hit" : "lost-entry","fetch_page(" + key + ") " + std::string(hit ? "hit" : "missed") + ", model " + (mhit ? "hit" : "miss"));
+						else if(hit){ std::string got = app->body(); if(fpv(got) != e->val) c.fail("wrong-value","fetch_page(" + key + ") delivered " + showv(got) + " expected " + showv(e->val)); c.cnt["pfetch_hit"]++; app->new_request(); ci = &app->cache(); page_open = false; }
+						else { page_open = true; page_key = key; } }
+					else if(op == "pstore"){   // the request that missed its page has built it (around whatever frames it fetched or stored) and stores it
+						if(page_open){ std::string val = make_val((int)i,(int)std::max<int64_t>(1,std::min<int64_t>(vlen,2000))); app->response().out() << val; ci->store_page(page_key,dl);
+							std::set<std::string> tr = mtrig; tr.insert(page_key); c.M().store("_U:" + page_key,fpv(val),tr,deadline,c.now()); c.cnt["pstore"]++; if(tr.size() >= 2) c.cnt["pstore_with_inherited_triggers"]++;
+							std::string sent = app->body(); if(sent != val) c.fail("wrong-value","the page written by the application is not what the connection received (" + showv(sent) + ")");
+							recs.clear(); mrecs.clear(); mtrig.clear(); page_open = false; app->new_request(); ci = &app->cache(); } }
 					else if(op == "probe"){ do_fetch(c,key,0); }
 				}
 				if(res.ok) check_stats(c);
@@ -300,7 +334,7 @@ struct E2 : Engine {
 				if(c.inconclusive) break;
 			}
 			if(res.ok && !c.inconclusive) final_sweep(c,std::min(maxk+1,64));
-			recs.clear(); ci.reset(); c.cache = 0; srv.reset();
+			recs.clear(); ci_own.reset(); ci = nullptr; app.reset(); c.cache = 0; srv.reset();
 		}
 		res.hash = simk::trace_hash() ^ runner::fnv(std::to_string(c.cnt["fetch_hit"]) + ":" + std::to_string(c.cnt["fetch_miss"]));
 		res.counters["sim_seconds"] = (long long)((simk::now_us() - sp.start_time_s*1000000LL)/1000000);
